@@ -47,7 +47,24 @@ def scenario(exe, r):
                      "pack": r.choice([1.0, 1.0, 0.7, 0.4, 0.0]),
                      "rst": r.random() < 0.15,
                      "delay": r.choice([0, 1, 50, 900, 2500, 3500])})
-    plans = dict((m["tok"], m) for m in msgs)
+    # the application reacts from inside its handlers: when the response (a third of the
+    # peers' ACKs carry one) or the NACK (Reset, give-up) for some message arrives, the
+    # handler submits one more request on that session.  Such a message was submitted after
+    # everything still held and takes its turn behind it.
+    chained = []
+    if r.random() < 0.4:
+        for m in list(msgs):
+            if m["type"] == 0 and r.random() < 0.35 and len(chained) < 6:
+                c = {"t": None, "sid": m["sid"], "type": 1 if r.random() < 0.2 else 0,
+                     "tok": bytes([0xB1, m["tok"][1], m["sid"]]), "chained_to": m["tok"],
+                     "pack": r.choice([1.0, 1.0, 0.7, 0.0]), "rst": r.random() < 0.15,
+                     "delay": r.choice([0, 1, 50, 900, 2500]), "piggy": r.random() < 0.5}
+                m["piggy"] = True
+                chained.append(c)
+                sim.cmd("chain 0 %s %s type=%d" % (m["tok"].hex(), c["tok"].hex(), c["type"]))
+    for m in msgs:
+        m.setdefault("piggy", r.random() < 0.3)
+    plans = dict((m["tok"], m) for m in msgs + chained)
     pr = common.rng("c08-peer-%d" % r.getrandbits(30))
 
     def peer(sm, frm, to, data):
@@ -63,7 +80,13 @@ def scenario(exe, r):
             return
         if pr.random() < pl["pack"]:
             d = pl["delay"] if pr.random() < 0.7 else pr.choice([0, 5, 1200])
-            sm.inject(to, frm, empty(3 if pl["rst"] else 2, mid), d)
+            if pl["rst"]:
+                sm.inject(to, frm, empty(3, mid), d)
+            elif pl["piggy"]:
+                sm.inject(to, frm, cw.encode(cw.msg(0x45, type=2, mid=mid, token=tok,
+                                                    payload=b"r"), "udp"), d)
+            else:
+                sm.inject(to, frm, empty(2, mid), d)
 
     for s in range(nsess):
         sim.peers[PEER % (s + 1)] = peer
@@ -103,7 +126,20 @@ def scenario(exe, r):
             sm.cmd("deliver %s %s - icmp=1" % (PEER % (isid + 1), local))
         sim.call_at(sim.now + icmp, do_icmp)
     sim.run(horizon=900000)
+    # what the handlers submitted, as the harness reports it
+    for c in chained:
+        for i, ev in enumerate(sim.log):
+            if ev["e"] == "sending" and ev.get("chained") and ev.get("tok") == c["tok"].hex():
+                c["t"] = ev["t"] - sim.t0
+                c["from_handler"] = ev["chained"]
+                nxt = [e for e in sim.log[i + 1:i + 12] if e["e"] == "sent" and
+                       e.get("tok") == c["tok"].hex()]
+                if nxt and nxt[0]["mid"] < 0:
+                    c["refused"] = True
+                msgs.append(c)
+                break
     sig = (nstart, nsess, nmsg, mr, stagger, fail_at, icmp is not None, failsend,
+           len([c for c in chained if c["t"] is not None]),
            tuple(sorted(set((m["type"], m["pack"], m["rst"], m["delay"]) for m in msgs)))[:6])
     return w, sim, msgs, nstart, failed, sig
 
@@ -264,8 +300,21 @@ def judge(run, sim, msgs, nstart, failed, witness, stats):
         stats["outcomes"][terminal[0] if terminal else "none"] = \
             stats["outcomes"].get(terminal[0] if terminal else "none", 0) + 1
     # submission order of first transmissions per session (CON only)
+    for m in msgs:
+        if m.get("chained_to"):
+            k = "submitted_from_%s_handler" % m.get("from_handler", "?")
+            stats[k] = stats.get(k, 0) + 1
+            if m["type"] == 0 and m["tok"] in first_tx and first_tx[m["tok"]] > m["t"] + sim.t0:
+                stats["handler_submission_held"] = stats.get("handler_submission_held", 0) + 1
+    sub_pos = {}
+    for i, ev in enumerate(sim.log):
+        if ev["e"] == "sending" and ev.get("tok"):
+            sub_pos.setdefault(bytes.fromhex(ev["tok"]), i)
     for sid in set(m["sid"] for m in msgs):
-        want = [m["tok"] for m in sorted(msgs, key=lambda x: (x["t"], msgs.index(x)))
+        # (submission order = order of the coap_send() calls in the execution, including the
+        # ones made from inside handlers)
+        want = [m["tok"] for m in sorted(msgs, key=lambda x: (sub_pos.get(x["tok"], 1 << 60),
+                                                              x["t"], msgs.index(x)))
                 if m["sid"] == sid and m["type"] == 0 and m["tok"] in first_tx]
         got = [t for t in first_order.get(sid, []) if by_tok[t]["type"] == 0]
         if got != want:
@@ -340,4 +389,8 @@ def main(tier):
     run.require("held_then_sent", stats.get("held_then_sent", 0), 300)
     run.require("held_at_failure", stats.get("held_at_failure", 0), 20)
     run.require("confirmables", stats.get("con", 0), 1000)
+    run.require("submitted_from_rsp_handler", stats.get("submitted_from_rsp_handler", 0), 40)
+    run.require("submitted_from_nack_handler", stats.get("submitted_from_nack_handler", 0), 20)
+    run.require("handler_submission_held", stats.get("handler_submission_held", 0), 20)
+    run.require("failed_writes", stats.get("failed_writes", 0), 50)
     return run.finish()
